@@ -203,6 +203,7 @@ func cmdCheck(args []string) int {
 	verbose := fs.Bool("v", false, "")
 	dumpAll := fs.String("dumpall", "", "dump the SMT scripts of all obligations to this dir")
 	noEvidence := fs.Bool("no-evidence", false, "")
+	replayOut := fs.String("replay-dir", "", "write replay files here instead of <verif>/replay/<prop>")
 	fs.Parse(args)
 	if *prop == "" {
 		fmt.Fprintln(os.Stderr, "-prop required")
@@ -385,6 +386,9 @@ func cmdCheck(args []string) int {
 
 	known := loadKnown(filepath.Join(*verif, "known_findings.json"))
 	replayDir := filepath.Join(*verif, "replay", *prop)
+	if *replayOut != "" {
+		replayDir = *replayOut
+	}
 	os.RemoveAll(replayDir)
 	total, discharged := 0, 0
 	violations := 0
